@@ -82,7 +82,7 @@ func confirm(prog *ssa.Program, pkg *ssa.Package, c harnessCfg, v *Violation, fi
 	}
 	// (2) native
 	out.Kind = "native"
-	res, log, err := nativeReplay(c.Name, file, overlay, doc.Stubs)
+	res, log, err := nativeReplay(c.Name, file, overlay, doc.Stubs, v.Kind)
 	doc.Native = res
 	if err != nil {
 		out.Result, out.Detail = "error", err.Error()+": "+tail(log, 600)
@@ -109,7 +109,7 @@ func tail(s string, n int) string {
 
 // nativeReplay runs harness `name` under `go test` on /repo's working tree with the harness files
 // (and the optional overlay mutation) injected by -overlay, feeding it the replay vector.
-func nativeReplay(name, replayFile string, overlay map[string][]byte, stubs map[string]string) (string, string, error) {
+func nativeReplay(name, replayFile string, overlay map[string][]byte, stubs map[string]string, kind string) (string, string, error) {
 	scratch, err := os.MkdirTemp("", "vpreplay")
 	if err != nil {
 		return "", "", err
@@ -120,7 +120,11 @@ func nativeReplay(name, replayFile string, overlay map[string][]byte, stubs map[
 		return "", "", err
 	}
 
-	cmd := exec.Command("go", "test", "-tags", "verif", "-vet=off", "-v", "-count=1", "-run", "^TestVerifReplay$", "-overlay", ovFile, "-timeout", "120s", ".")
+	testTimeout := "120s"
+	if kind == "DEADLOCK" {
+		testTimeout = "20s" // a native run that does not finish is the deadlock reproduced
+	}
+	cmd := exec.Command("go", "test", "-tags", "verif", "-vet=off", "-v", "-count=1", "-run", "^TestVerifReplay$", "-overlay", ovFile, "-timeout", testTimeout, ".")
 	cmd.Dir = repoDir
 	cmd.Env = append(goEnv(), "VERIF_HARNESS="+name, "VERIF_REPLAY="+replayFile)
 	var ob bytes.Buffer
@@ -141,6 +145,9 @@ func nativeReplay(name, replayFile string, overlay map[string][]byte, stubs map[
 		if strings.HasPrefix(l, "VPREPLAY: ") {
 			return strings.TrimPrefix(l, "VPREPLAY: "), log, nil
 		}
+	}
+	if kind == "DEADLOCK" && (strings.Contains(log, "test timed out after") || strings.Contains(log, "all goroutines are asleep")) {
+		return "violated: the native run deadlocked (go test: " + testTimeout + " without finishing)", log, nil
 	}
 	return "", log, fmt.Errorf("native replay produced no verdict")
 }
@@ -168,7 +175,7 @@ func replayStored(file string) int {
 	}
 	abs, _ := filepath.Abs(file)
 	_ = mutated
-	res, log, err := nativeReplay(doc.Harness, abs, overlay, doc.Stubs)
+	res, log, err := nativeReplay(doc.Harness, abs, overlay, doc.Stubs, doc.Kind)
 	if err != nil {
 		fmt.Println("replay error:", err, tail(log, 800))
 		return 2
